@@ -200,11 +200,13 @@ pub fn stub_regex_new(_re: &str) -> Result<regex::Regex, regex::Error> {
 /// chrono's strftime-style parser is environment for the evaluator harnesses: any parse result.
 pub fn stub_naive_parse_from_str(_s: &str, _fmt: &str) -> chrono::ParseResult<NaiveDateTime> {
     if kani::any() {
-        let secs: i64 = kani::any();
-        kani::assume(secs > -(1i64 << 40) && secs < (1i64 << 40));
-        Ok(DateTime::from_timestamp(secs, 0).unwrap().naive_utc())
+        // some wall-clock time on a date with a DST switch in many zones; which hour is symbolic
+        let hour: u32 = kani::any();
+        kani::assume(hour < 24);
+        Ok(NaiveDate::from_ymd_opt(2021, 3, 28).unwrap().and_hms_opt(hour, 30, 0).unwrap())
     } else {
-        NaiveDateTime::parse_from_str("", "%Y")
+        // ParseError is a newtype around the public ParseErrorKind (no public constructor)
+        Err(unsafe { std::mem::transmute::<chrono::format::ParseErrorKind, chrono::ParseError>(chrono::format::ParseErrorKind::Invalid) })
     }
 }
 
